@@ -305,6 +305,23 @@ def prefixes : List String := ["names."]
     match (getField fs "r").bind String.toNat? with
     | some r => s!"{macEncodeOne r};{r}"
     | none => "bad-case"
+  else if op == "names.postrtl" then
+    -- prediction (C14_post_checked_roundtrip) for an explicit list: refusal, or the list unchanged
+    match parseNames fs with
+    | some none => showNames none
+    | some (some names) =>
+      if names == tbl || postFits tbl names then showNames (some names) else "panic"
+    | none => "bad-case"
+  else if op == "names.allids" then
+    -- prediction (C14_language_tables_injective): one record per language id of the regenerated table,
+    -- each with its own string; after Decode every string is still there, except that the ids 0x040A and
+    -- 0x0C0A (both es-ES) merge and the later record (0x0C0A) wins
+    match (getField fs "plat").bind String.toNat? with
+    | some plat =>
+      let tblL := if plat == 1 then Gen.appleBCP else Gen.msBCP
+      let ids := ((sortLangs tblL).map (·.1)).filter fun i => !(plat == 3 && i == 0x040A)
+      s!"{ids.length};" ++ natsToString ids
+    | none => "bad-case"
   else "bad-op"
 
 def specStd : Array (List Nat) := Spec.standardTable.toArray
